@@ -30,3 +30,8 @@ Theorem C07_race_ok_unwinds_only_on_child_panic kind scs ops :
   In EEndX (strip (tr _ (race_ok_world kind scs ops))) -> In (EAns APanic) (strip (tr _ (race_ok_world kind scs ops))).
 Proof. exact (race_ok_unwinds_only_on_child_panic kind scs ops). Qed.
 Print Assumptions C07_race_ok_unwinds_only_on_child_panic.
+
+Theorem C07_hypothesis_fails_only_by_drop_or_child_panic kind scs ops :
+  dropped _ (race_ok_world kind scs ops) = true -> In ODrop ops \/ In (EAns APanic) (strip (tr _ (race_ok_world kind scs ops))).
+Proof. exact (race_ok_dropped_means kind scs ops). Qed.
+Print Assumptions C07_hypothesis_fails_only_by_drop_or_child_panic.
